@@ -42,6 +42,27 @@ def optimise(text, traits, inputs="auto", outputs="auto"):
     return "\n".join(map(str, res))
 
 
+@named("show_nothing")
+def _show_nothing(req):
+    from ngo.utils.ast import Predicate
+    from ngo.utils.globals import auto_detect_output
+
+    prg = []
+    parse_string("#show. #show a/1. a(1).", prg.append)
+    out = auto_detect_output(prg)
+    return {"reproduced": Predicate("", 0) in out, "result": [str(p) for p in out]}
+
+
+@named("pool_invisible")
+def _pool_invisible(req):
+    from ngo.utils.globals import auto_detect_input
+
+    prg = []
+    parse_string("a :- p(1;2).", prg.append)
+    got = {(p.name, p.arity) for p in auto_detect_input(prg)}
+    return {"reproduced": ("p", 1) not in got, "result": sorted(got)}
+
+
 def run(req):
     kind = req.get("kind")
     if kind == "answer_sets":
